@@ -170,12 +170,17 @@ impl Scaled {
             .ok()
             .and_then(|i| i32::try_from(i).ok())
             .ok_or_else(|| format!("invalid number {int_str:?} in dimension {s:?}"))?;
-        let frac_digits: Vec<u8> = frac_str.chars().map(|c| c as u8 - b'0').collect();
-        if frac_digits.iter().any(|&d| d > 9) {
+        // char::to_digit, not `c as u8 - b'0'`: the latter underflows for characters below '0'
+        // and truncates characters above U+00FF.
+        let frac_digits: Option<Vec<u8>> = frac_str
+            .chars()
+            .map(|c| c.to_digit(10).map(|d| d as u8))
+            .collect();
+        let Some(frac_digits) = frac_digits else {
             return Err(format!(
                 "invalid fractional part {frac_str:?} in dimension {s:?}"
             ));
-        }
+        };
         let fractional_part = Scaled::from_decimal_digits(&frac_digits);
         let magnitude = Scaled::new(integer_part, fractional_part, unit)
             .map_err(|_| format!("dimension {s:?} is out of range"))?;
